@@ -760,6 +760,32 @@ pub fn plan_for(property: &str, seed: u64) -> Plan {
             plan.time_cap_us += end;
             plan
         }
+        "C15" => {
+            // transfers long enough for several key updates under reduced limits (the wrapper key
+            // reports a confidentiality limit of 10 000 + T packets, so the transport updates
+            // every T packets), reordering around the updates, forged/corrupted packets against
+            // a small integrity limit
+            let p = Profile {
+                max_conns: 2,
+                max_streams: 4,
+                max_stream_bytes: if r.chance(1, 3) { 4 << 20 } else { 1 << 20 },
+                fault_rates_permille: &[0, 5, 20, 50, 150],
+                corrupting: true,
+                ..Default::default()
+            };
+            let mut plan = base_plan(seed, property, "c15.keys", &mut r, &p);
+            for e in [&mut plan.cfg.server, &mut plan.cfg.client] {
+                e.key_update_t = r.pick(&[None, Some(100u64), Some(150), Some(400), Some(1500)]);
+                e.integrity_limit = r.pick(&[None, None, Some(2u64), Some(5), Some(20), Some(100)]);
+            }
+            if plan.cfg.server.key_update_t.is_none() && plan.cfg.client.key_update_t.is_none() {
+                plan.cfg.client.key_update_t = Some(200);
+            }
+            let end = r.pick(&[2_000_000u64, 10_000_000, 30_000_000]);
+            plan.faults_end_us = Some(end);
+            plan.time_cap_us += end;
+            plan
+        }
         "C13" => {
             let p = Profile {
                 max_conns: 3,
@@ -804,6 +830,9 @@ pub fn plan_for(property: &str, seed: u64) -> Plan {
                 allow_reset: true,
                 allow_stop: true,
                 hard_close: true,
+                // a third of the plans: windows small enough for streams to be blocked when
+                // they are reset / stopped
+                small_windows: r.chance(1, 3),
                 max_stream_bytes: 150_000,
                 corrupting: false,
                 fault_rates_permille: &[0, 20, 50, 150, 300],
